@@ -4,7 +4,6 @@
 package httpserver
 
 import (
-	"bytes"
 	"crypto/tls"
 	"net"
 
@@ -112,6 +111,12 @@ func VerifH19bVersion() {
 	verifrt.Observe("ver2", v2 >= 0)
 }
 
+type zzOneConnListener struct{ conn net.Conn }
+
+func (l *zzOneConnListener) Accept() (net.Conn, error) { return l.conn, nil }
+func (l *zzOneConnListener) Close() error              { return nil }
+func (l *zzOneConnListener) Addr() net.Addr            { return zzAddr{} }
+
 type zzAddr struct{}
 
 func (zzAddr) Network() string { return "tcp" }
@@ -152,8 +157,14 @@ func VerifH19cSegmentation() {
 		cut2 = verifrt.IntRange("cut2", cut1, total)
 	}
 	under := &zzSegConn{data: stream, cuts: []int{cut1, cut2}}
-	ln := &tlsHelloListener{helloInfos: make(map[string]rawHelloInfo)}
-	c := &clientHelloConn{Conn: under, listener: ln, buf: new(bytes.Buffer)}
+	// the connection is set up exactly as the server does it: through the listener's Accept
+	ln := newTLSListener(&zzOneConnListener{conn: under}, &tls.Config{})
+	tc, err := ln.Accept()
+	if err != nil {
+		verifrt.Fail("accept")
+		return
+	}
+	c := tc.(*tls.Conn).NetConn()
 	var passed []byte
 	for i := 0; i < 4 && len(passed) < total; i++ {
 		b := make([]byte, 128)
